@@ -18,6 +18,20 @@ CHRONO_ASSUMPTIONS = [
     "an eligible day exists in the search direction inside chrono's range (has_fwd/has_bwd preconditions): without it the real loops end in chrono's overflow panic; implied by a finite holiday set and a working weekday inside the range",
 ]
 
+DUAL_ASSUMPTIONS = [
+    "R6: f64 is modelled by R64 with mathematical real arithmetic (rounding, NaN, inf, signed zero dropped); division requires a non-zero divisor",
+    "shim/collections.rs: String is an abstract name; IndexSet<String> is a duplicate-free sequence with first-occurrence from_iter / union; iterator adapters specified eagerly (closures in the extracted code are pure)",
+    "shim/ndarray.rs: Array1/Array2 element-wise operators, zeros/ones/from_vec/clone/t()/view()/into_shape_with_order as documented by ndarray",
+    "Arc is transparent; Arc::ptr_eq is an uninterpreted boolean that implies equal contents",
+    "R3: the trait impls that auto_ops' impl_op*! macros generate around each closure are re-generated from the macro's documented scheme (forwarders), not taken from its expansion",
+    "#[derive(Clone)] on Dual/Dual2/VarsRelationship is the field-wise clone written out in spec/dualview.rs",
+]
+
+AD_ASSUMPTIONS = [
+    "oracle: the textbook forward-mode rules of spec/ad.rs; exp, ln, x^p, Phi, Phi^-1, sqrt, pi are uninterpreted real functions; assumed facts: x^2 = x*x, x^-1 = 1/x, x^-2 = 1/x^2, x^-3 = 1/x^3 (x != 0), sqrt(2 pi) > 0; phi(x) = exp(-x^2/2)/sqrt(2 pi) and 1/phi(x) = sqrt(2 pi) exp(x^2/2) are the definitions used for the normal density",
+    "that d/dx exp = exp, d/dx ln = 1/x, d/dx x^p = p x^(p-1), Phi' = phi, (Phi^-1)' = 1/phi(Phi^-1) is calculus, taken as the oracle and not derived from limits",
+]
+
 CHECKS = {
     "C04": {
         "units": ["dateroll"],
@@ -53,5 +67,32 @@ CHECKS = {
         "uncovered": [
             "JSON text handling (serde_json), Ccy::try_new (global interner), NamedCal::try_new string handling: outside both verifiers' reach (DESIGN.md §7 C20)",
         ],
+    },
+    "C17": {
+        "units": ["dual_core"],
+        "level": "proof",
+        "assumptions": DUAL_ASSUMPTIONS,
+        "uncovered": [
+            "the product-rule identity for manifolds is a consequence of the gradient1_manifold contract and C02's Mul contract; it is not separately stated as a lemma",
+            "requested lists with duplicate names: gradient1/gradient2 drop duplicates (first occurrence kept) and are covered; gradient1_manifold is specified for distinct names only, as the property states",
+        ],
+    },
+    "C01": {
+        "units": ["dual_ops"],
+        "level": "proof",
+        "assumptions": DUAL_ASSUMPTIONS + AD_ASSUMPTIONS,
+        "uncovered": [],
+    },
+    "C02": {
+        "units": ["dual_ops"],
+        "level": "proof",
+        "assumptions": DUAL_ASSUMPTIONS + AD_ASSUMPTIONS,
+        "uncovered": [],
+    },
+    "C03": {
+        "units": ["dual_core", "dual_ops"],
+        "level": "proof",
+        "assumptions": DUAL_ASSUMPTIONS,
+        "uncovered": [],
     },
 }
